@@ -16,6 +16,7 @@ use crate::sched::*;
 use serde_json::{json, Value as J};
 use std::collections::HashMap;
 use std::io::{BufRead, Write};
+use std::task::Poll;
 use zbus::fdo::ObjectManager;
 use zbus::zvariant::{OwnedObjectPath, OwnedValue};
 use zbus::{interface, MessageStream};
@@ -26,6 +27,31 @@ const N_I1: &str = "org.verif.I1";
 const N_I2: &str = "org.verif.I2";
 const N_OM: &str = "org.freedesktop.DBus.ObjectManager";
 
+// A gate the property getters pass through: open except while an "atrm" operation holds a registration in its
+// property-collection window.
+static GATE_OPEN: std::sync::atomic::AtomicBool = std::sync::atomic::AtomicBool::new(true);
+static GATE_WAKERS: std::sync::Mutex<Vec<std::task::Waker>> = std::sync::Mutex::new(Vec::new());
+struct GateFut;
+impl std::future::Future for GateFut {
+    type Output = ();
+    fn poll(self: std::pin::Pin<&mut Self>, cx: &mut std::task::Context<'_>) -> Poll<()> {
+        if GATE_OPEN.load(std::sync::atomic::Ordering::SeqCst) {
+            Poll::Ready(())
+        } else {
+            GATE_WAKERS.lock().unwrap().push(cx.waker().clone());
+            Poll::Pending
+        }
+    }
+}
+fn set_gate(open: bool) {
+    GATE_OPEN.store(open, std::sync::atomic::Ordering::SeqCst);
+    if open {
+        for w in GATE_WAKERS.lock().unwrap().drain(..) {
+            w.wake();
+        }
+    }
+}
+
 pub struct I1 {
     pub val: u32,
 }
@@ -35,7 +61,8 @@ impl I1 {
         self.val
     }
     #[zbus(property)]
-    fn val(&self) -> u32 {
+    async fn val(&self) -> u32 {
+        GateFut.await;
         self.val
     }
 }
@@ -48,7 +75,8 @@ impl I2 {
         self.val
     }
     #[zbus(property)]
-    fn val(&self) -> u32 {
+    async fn val(&self) -> u32 {
+        GateFut.await;
         self.val
     }
 }
@@ -182,8 +210,53 @@ impl World {
         out
     }
 
+    /// "atrm": `at(p, i)` and `remove(p, i)` issued concurrently - the registration is held in its
+    /// property-collection window (the getter gate is shut) when the removal is issued, then the gate opens.  The
+    /// object server serialises the two (ObjTree: the effect is that of at followed by remove).
+    fn apply_race(&mut self, p: &str, i: &str, v: u32) -> &'static str {
+        let path = self.names.c(p);
+        let (s1, s2) = (self.pair.server.clone(), self.pair.server.clone());
+        let (p1, p2) = (path.clone(), path);
+        let first = i == "I1";
+        set_gate(false);
+        let mut ja = Job::new(async move {
+            let os = s1.object_server();
+            if first { os.at(p1.as_str(), I1 { val: v }).await } else { os.at(p1.as_str(), I2 { val: v }).await }
+        });
+        {
+            let mut refs: Vec<&mut dyn Pollable> = vec![&mut ja];
+            self.pair.settle(&mut refs);
+        }
+        let mut jr = Job::new(async move {
+            let os = s2.object_server();
+            if first { os.remove::<I1, _>(p2.as_str()).await } else { os.remove::<I2, _>(p2.as_str()).await }
+        });
+        {
+            let mut refs: Vec<&mut dyn Pollable> = vec![&mut ja, &mut jr];
+            self.pair.settle(&mut refs);
+        }
+        set_gate(true);
+        {
+            let mut refs: Vec<&mut dyn Pollable> = vec![&mut ja, &mut jr];
+            self.pair.settle(&mut refs);
+        }
+        let a = match ja.take() { None => "hang", Some(Err(_)) => "panic", Some(Ok(Err(_))) => "err", Some(Ok(Ok(true))) => "added", Some(Ok(Ok(false))) => "refused" };
+        let r = match jr.take() { None => "hang", Some(Err(_)) => "panic", Some(Ok(Err(_))) => "err", Some(Ok(Ok(_))) => "ok" };
+        match (a, r) {
+            ("added", "ok") => "added+ok",
+            ("refused", "ok") => "refused+ok",
+            ("added", "err") => "added+err",
+            ("refused", "err") => "refused+err",
+            (_, "panic") | ("panic", _) => "panic",
+            _ => "hang",
+        }
+    }
+
     /// Perform one operation through the public API; returns the abstract result.
     pub fn apply(&mut self, op: &str, p: &str, i: &str, v: u32) -> &'static str {
+        if op == "atrm" {
+            return self.apply_race(p, i, v);
+        }
         let s = self.pair.server.clone();
         let path = self.names.c(p);
         let which = i.to_string();
@@ -394,8 +467,11 @@ pub fn random(n: u64, len: u64, seed: u64, out: &str) {
         for s in 0..len {
             let p = PATHS[rng.below(4) as usize];
             let i = if rng.below(100) < om_bias { "OM" } else if rng.chance(1, 2) { "I1" } else { "I2" };
-            let op = if rng.below(100) < at_bias { "at" } else { "remove" };
-            ops.push((op.to_string(), p.to_string(), i.to_string(), if op == "at" { (s + 1) as u32 } else { 0 }));
+            let mut op = if rng.below(100) < at_bias { "at" } else { "remove" };
+            if i != "OM" && rng.chance(1, 8) {
+                op = "atrm"; // registration and removal of the same pair issued concurrently
+            }
+            ops.push((op.to_string(), p.to_string(), i.to_string(), if op != "remove" { (s + 1) as u32 } else { 0 }));
         }
         let t = Naming::table();
         let n = t[rng.below(t.len() as u64) as usize];
